@@ -164,6 +164,9 @@ func jwtMutations(rng *rand.Rand, c jwtCfg, claims map[string]interface{}, tok s
 }
 
 func TestVerif_C06_JWT(t *testing.T) {
+	if c06NotReplayed(t) {
+		return
+	}
 	r := kit.Start(t, "C06")
 	defer r.Finish()
 	r.Rule("JWT: per case a Validator{jwt: alg HS256/384/512, random 1-48 byte secret, optional cookieName} is built through filters.NewSpec+Init; an independent RFC 7515 encoder issues a token (claims with/without exp/nbf/iat, hours away from now; non-ASCII claims) carried as Bearer header or cookie on a random request (methods, escaped paths, bodies) parsed from wire bytes by net/http + httpprot.NewRequest + FetchPayload; valid token must give result \"\"; 15 single mutations (byte flip in each segment, alg header changed, re-MACed under another HS alg with the right secret, alg none, secret off by one bit / hex text / extended, expired or not-yet-valid by hours, MAC dropped/emptied, token removed, wrong scheme) must each give invalid+401/400; distinct = (alg, carrier, claim class, mutation)")
@@ -345,6 +348,9 @@ func basicMutations(rng *rand.Rand, cfg basicCfg, u basicUser) []credMut {
 }
 
 func TestVerif_C06_Basic(t *testing.T) {
+	if c06NotReplayed(t) {
+		return
+	}
 	r := kit.Start(t, "C06")
 	defer r.Finish()
 	r.Rule("Basic: per case 1-4 users (ASCII / non-ASCII / dotted / e-mail names; passwords: alnum, symbols, non-ASCII, inner spaces, 60 chars, 1 char, containing ':' at start/middle/end/several) are written by an independent htpasswd writer (bcrypt, {SHA}, {SSHA}, plain) to a file (mode FILE) or served from a mocked etcd prefix (mode ETCD); the request 'Authorization: Basic base64(user:password)' (RFC 7617: the password is everything after the FIRST colon) for a configured user must give \"\"; ~18 single mutations of the credentials (one char changed/dropped/appended, ':xyz' appended, case, empty, another user's password/name, unknown user, stored hash as password, no colon, other scheme, broken base64, header removed) must give invalid+401/400; distinct = (mode, hash scheme, password class, mutation)")
@@ -613,6 +619,9 @@ func sigFeatures(c sigCfg) string {
 }
 
 func TestVerif_C06_Signature(t *testing.T) {
+	if c06NotReplayed(t) {
+		return
+	}
 	r := kit.Start(t, "C06")
 	defer r.Finish()
 	r.Rule("Signature: per case a Validator{signature: AWS literals (60%) or the default ME literals, 1-3 access keys, scopes (AWS: region/service; ME: 0-3), ttl none/1h/90m/2h/24h, excludeBody, ignoredHeaders} is built through filters.NewSpec+Init; a random request (5 methods, 0-4 path segments needing escaping incl. UTF-8, '%', sub-delims raw or escaped, 0-4 query parameters incl. multi-valued and values needing escaping, 0-6 headers incl. multi-valued and values with runs of blanks, Content-Length or chunked bodies 0 B-1 MiB, 4 hosts) is signed by (a) an independent from-the-AWS-documentation SigV4 signer, self-checked against the published AWS example and two cases of the public test suite, and (b) the package's own client-side Sign on a fresh outgoing request; only when both agree the request counts as validly signed and must give \"\" after net/http parsing + httpprot.NewRequest + FetchPayload; then ~25 single mutations (method, path char/segment/slash, query value/param/key, signed header value/removed/extra value/dropped from list, host, date header, body byte appended/flipped/dropped/emptied, signature hex char, key id other/unknown, scope, Authorization removed, re-signed with a wrong secret, re-signed hours outside the TTL in both directions) must give invalid+401/400, and neutral changes (unsigned header added, body re-framed chunked<->Content-Length) must stay accepted; presigned URLs: completeness + expiry + signature char; distinct = (feature set, body class, framing, mutation)")
@@ -850,6 +859,9 @@ func hdrRulesYAML(rs []hdrRule) string {
 }
 
 func TestVerif_C06_Multi(t *testing.T) {
+	if c06NotReplayed(t) {
+		return
+	}
 	r := kit.Start(t, "C06")
 	defer r.Finish()
 	r.Rule("Several methods: Validators combining header rules (values or anchored regexp, single-valued request headers), JWT (cookie or header), Basic (htpasswd file) and signature (header mode) in the 6 combinations whose credentials can coexist in one request; the fully valid request must give \"\"; then, for each configured method in turn, ONLY that method's credential is made invalid (rule header missing/wrong, token MACed with a wrong secret, wrong password, signature hex char changed) while all others stay valid (the signature is re-computed after the change where it covers the changed header) and the result must be invalid+401/400; distinct = (combination, method invalidated, how)")
@@ -1022,6 +1034,9 @@ func TestVerif_C06_Multi(t *testing.T) {
 // TestVerif_C06_Gate: configurations validation accepts whose credential store turns out
 // empty or unavailable at Init must admit nobody (the gate must not fall open).
 func TestVerif_C06_Gate(t *testing.T) {
+	if c06NotReplayed(t) {
+		return
+	}
 	r := kit.Start(t, "C06")
 	defer r.Finish()
 	r.Rule("Gate: Basic validators whose store is empty or unreachable at Init (empty htpasswd file, empty etcd prefix, etcd GetPrefix error) x requests without credentials / with well-formed credentials of a non-configured user / with garbage: since no user is configured nothing may be admitted; distinct = (store state, request kind).  Non-deciding exploration (counters only): mode ETCD on a supervisor without cluster, which cannot occur in a running gateway")
